@@ -444,7 +444,7 @@ def bounded(tier, seed):
         if len(samples) < 5 and len(combo) == 3:
             samples.append(dict(members=[repr(dict(pool[i]()))[:80] for i in combo]))
     # end to end through the real server and client: the same operations bundled and singly
-    for ops in (['A[0-2]', 'A[1]=5', 'A[1]'], ['A[0]', 'Nope', 'A[1]']):
+    for ops in (['A[0-2]', 'A[1]=5', 'A[1]'], ['A[0]', 'Nope', 'A[1]'], ['A[0-2]', 'A[8-12]', 'A[1]', 'A[3]=(DINT)1', 'A[9]']):
         ev += 1
         try:
             bad = e2e_bundle_vs_singles(ops)
@@ -454,6 +454,12 @@ def bounded(tier, seed):
         if bad:
             violations.append(dict(key='e2e %s' % ' '.join(ops), observed=bad[:500],
                                    required='the client sees the same status and value per operation bundled or singly'))
+    # client side: a bundle never mixes operations with different route / send paths (connector.issue)
+    from . import C12
+
+    def viol(key, obs, req):
+        violations.append(dict(key=key, observed=str(obs)[:400], required=req))
+    ev += C12.route_mix(rng, {'A': ('INT', 10), 'B': ('DINT', 6), 'S': ('SINT', 4)}, 3 if tier == 'quick' else 15, viol, distinct)
     return dict(evaluations=ev, distinct_nontrivial=len(distinct),
                 rule='bundles of 0..4 members drawn from a pool of %d Read/Write Tag [Fragmented] requests (valid, out of range, unknown tag, '
                      'wrong type) on two INT tags with MAX_BYTES=6: (a) produced bundle bytes vs the layout table with the members encoded singly, '
